@@ -43,7 +43,10 @@ class RestreamedBytesIO(object):
         datalen = len(data)
         while len(self.wbuffer) >= self.encoderunit:
             data, self.wbuffer = self.wbuffer[:self.encoderunit], self.wbuffer[self.encoderunit:]
-            self.substream.write(self.encoder(data))
+            encoded = self.encoder(data)
+            written = self.substream.write(encoded)
+            if written is not None and written != len(encoded):
+                raise IOError("substream written less than specified, expected %d, written %d" % (len(encoded), written))
         self.sincereadwritten += datalen
         return datalen
 
